@@ -795,7 +795,7 @@ ENTRY_POINTS = ["regclient.ImageCopy (image.go: imageCopyOpt, imageCopyBlob, ima
                 "scheme/ocidir: ManifestHead/Get/Put, BlobHead/Get/Put, ReferrerList, TagList"]
 ASSUMPTIONS = [
     "ideal hash: distinct contents have distinct digests; content is small (<= 1100 bytes), uploads monolithic",
-    "graphs from the catalogue of 14 shapes (harness/cmd/copydrv/content.go = spec/CopyShapes.tla)",
+    "graphs from the catalogue of 17 shapes (harness/cmd/copydrv/content.go = spec/CopyShapes.tla)",
     "model registries (zzverif/simreg) conform to the distribution spec; a registry changes state only by serving a request",
     "TLC exhaustive only within the stated constants; the larger shapes fault-free under a hand partial-order "
     "reduction (cross-checked against the full exploration on the small shapes in the thorough tier)",
